@@ -731,6 +731,9 @@ class Interface:
             return [(st, args[0])]
         return None
 
+    def abstract_self_call(self, eng, qual, selfv, args, kws, st, node):
+        return None
+
     def super_call(self, eng, attr, node, st):
         raise OutOfReach('super().%s' % attr)
 
